@@ -288,6 +288,18 @@ fn pinned_programs() -> Vec<(String, String)> {
     {
         v.push((format!("comment-between:{i}"), t.to_string()));
     }
+    // the directive as one line of a longer block comment; stray `ignore end` before a complete region
+    for (i, t) in [
+        "--[[\n  laid out by hand\n  stylua: ignore\n]]\nlocal   m   =  { 1,0,\n   0,1 }\nlocal   after=1\n",
+        "--[[\n  region opens here\n  stylua: ignore start\n]]\nlocal   p   =   1;\ncall(  p  )\n--[[ stylua: ignore end\n   region closed ]]\nlocal   q   =   2\n",
+        "-- stylua: ignore end\nlocal   a   =  1\n-- stylua: ignore start\nlocal   b   =   { 0,1,\n 0 }\ncall(  b  ) ;\n-- stylua: ignore end\nlocal   c =   3\n",
+        "do\n    -- stylua: ignore end\n    local   a   =  1\n    if x then\n        -- stylua: ignore start\n        y   =   {  2  }\n        -- stylua: ignore end\n        z   =  3\n    end\nend\n",
+    ]
+    .iter()
+    .enumerate()
+    {
+        v.push((format!("directive-forms:{i}"), t.to_string()));
+    }
     // table fields
     for (i, t) in [
         "local t = {\n    -- stylua: ignore\n    a   =   1,\n    b   =  2,\n}\n",
@@ -295,6 +307,7 @@ fn pinned_programs() -> Vec<(String, String)> {
         "local t = { x   = 1,\n    -- stylua: ignore\n    y   =   2 }\n",
         "call({\n    -- stylua: ignore\n    f   =   function( a )   return a   end,\n    g = 1,\n})\n",
         "local t = {\n    -- stylua: ignore\n    -- why\n    x   =    2,\n    y = 3,\n}\n",
+        "local t = {\n    --[[ keep\n      stylua: ignore\n    ]]\n    y   =   {  2  },\n    z = 3,\n}\n",
     ]
     .iter()
     .enumerate()
@@ -316,9 +329,11 @@ fn check_table_field(ctx: &mut Ctx, id: &str, src: &str, c: &Cfg) {
     };
     let lines: Vec<&str> = src.lines().collect();
     for (i, l) in lines.iter().enumerate() {
-        if l.trim() == "-- stylua: ignore" && i + 1 < lines.len() {
+        let t = l.trim();
+        if (t == "-- stylua: ignore" || t == "stylua: ignore") && i + 1 < lines.len() {
             let mut j = i + 1;
-            while j < lines.len() && lines[j].trim().starts_with("--") {
+            // skip further comment lines (and the closing line of a block comment that holds the directive)
+            while j < lines.len() && (lines[j].trim().starts_with("--") || lines[j].trim() == "]]") {
                 j += 1;
             }
             if j >= lines.len() {
